@@ -146,25 +146,12 @@ class BatchProcessTarget(Target):
         return answers
 
 
-class PyTarget(Target):
-    lang = "py"
+class _PyWorker:
+    """One worker subprocess of the Python target."""
 
-    def __init__(self, ns, outdir, numpy_dir):
-        super().__init__("py", {"lang": "py"})
-        self.ns, self.outdir, self.numpy_dir = ns, pathlib.Path(outdir), numpy_dir
+    def __init__(self, outdir, numpy_dir):
+        self.outdir, self.numpy_dir = outdir, numpy_dir
         self.proc = None
-
-    def build(self):
-        self.outdir.mkdir(parents=True, exist_ok=True)
-        gen = self.outdir / "gen"
-        ok, log = run_nnvg(self.ns, "py", gen)
-        self.build_log = log
-        if not ok:
-            return False
-        desc = [py_type_desc(gt) for gt in self.ns.types]
-        (self.outdir / "types.json").write_text(json.dumps(desc))
-        self.ok = True
-        return True
 
     def _start(self):
         env = dict(os.environ)
@@ -201,7 +188,7 @@ class PyTarget(Target):
         th.join(timeout=5)
         return out
 
-    def ask(self, lines, timeout=900):
+    def ask(self, lines):
         answers = []
         start, n = 0, len(lines)
         while start < n:
@@ -221,9 +208,6 @@ class PyTarget(Target):
                 start += 1
         return answers
 
-    def probe(self):
-        return json.loads(self.ask(["probe"])[0])
-
     def close(self):
         if self.proc is not None:
             try:
@@ -232,6 +216,50 @@ class PyTarget(Target):
             except Exception:
                 self.proc.kill()
             self.proc = None
+
+
+class PyTarget(Target):
+    lang = "py"
+    n_workers = 4
+
+    def __init__(self, ns, outdir, numpy_dir):
+        super().__init__("py", {"lang": "py"})
+        self.ns, self.outdir, self.numpy_dir = ns, pathlib.Path(outdir), numpy_dir
+        self.workers = []
+
+    def build(self):
+        self.outdir.mkdir(parents=True, exist_ok=True)
+        gen = self.outdir / "gen"
+        ok, log = run_nnvg(self.ns, "py", gen)
+        self.build_log = log
+        if not ok:
+            return False
+        desc = [py_type_desc(gt) for gt in self.ns.types]
+        (self.outdir / "types.json").write_text(json.dumps(desc))
+        self.ok = True
+        return True
+
+    def ask(self, lines, timeout=900):
+        """Requests are dealt to a few worker processes (interleaved, so that the expensive types spread out)."""
+        if not self.workers:
+            self.workers = [_PyWorker(self.outdir, self.numpy_dir) for _ in range(self.n_workers)]
+        k = min(len(self.workers), max(1, len(lines) // 50))
+        shares = [list(range(i, len(lines), k)) for i in range(k)]
+        answers = [None] * len(lines)
+        with concurrent.futures.ThreadPoolExecutor(max_workers=k) as ex:
+            futs = [ex.submit(self.workers[i].ask, [lines[j] for j in shares[i]]) for i in range(k)]
+            for idxs, f in zip(shares, futs):
+                for j, a in zip(idxs, f.result()):
+                    answers[j] = a
+        return answers
+
+    def probe(self):
+        return json.loads(self.ask(["probe"])[0])
+
+    def close(self):
+        for w in self.workers:
+            w.close()
+        self.workers = []
 
 
 # ------------------------------------------------------------------------------------------------------------
